@@ -1,6 +1,6 @@
 (* C14 — constructor success implies Validate success implies a clean wire round trip;
    documented defects are rejected by constructor and validator alike. *)
-From Model Require Import Bytes Prim Tables Cert KAC Mapping Sig LS Validate.
+From Model Require Import Bytes Prim Tables Cert KAC Mapping Sig LS RI Validate.
 From Gen Require Import Tables Validators.
 From Proofs Require Import BytesLemmas CtorProofs MappingProofs CtorRT ValidatorTie ElsChain LS2Layers Retail.
 Open Scope Z_scope.
@@ -197,3 +197,8 @@ Theorem C14_meta_parsed_value_parses_back : forall x l r b, wf x -> read_meta_le
   meta_lease_set_bytes l = Ok b -> b ++ r = x -> Gen.Consts.c_meta_leaseset_META_LEASESET_MIN_SIZE <= Z.of_nat (length b) ->
   exists l', read_meta_lease_set b = Ok (l', []) /\ meta_lease_set_bytes l' = Ok b.
 Proof. exact read_meta_lease_set_reparse. Qed.
+Theorem C14_router_info_parsed_value_parses_back : forall d i r b, wf d -> read_router_info d = Ok (i, r) ->
+  router_info_bytes i = Ok b -> b ++ r = d ->
+  exists i', read_router_info b = Ok (i', []) /\ router_info_bytes i' = Ok b.
+Proof. exact read_router_info_reparse. Qed.
+Print Assumptions C14_router_info_parsed_value_parses_back.
